@@ -873,8 +873,8 @@ class Gen:
             t = self.rng.choice([253402300800, 10 ** 12, -62135596801, -10 ** 12])
             self.count("force.unrepresentable")
         else:
-            t = self.rng.choice([1.5, "12"])
-            self.count("force.bad_type")
+            t = self.rng.choice([1.5, "12", True, False])     # a bool is an int in Python: accepted as 1 / 0
+            self.count("force.bad_type" if not isinstance(t, bool) else "force.bool")
         if self.ents[e]["kind"] == "feature":
             self.count("force.on_feature")
         if self.rng.random() < 0.5:
@@ -1462,11 +1462,14 @@ def oracle(ctx, broken, hints):
     hist += [h for _, h in matrix_histories(rng)]
     g = Gen(rng)
     hist.append(g.sweep())
+    systematic = len(hist)
     for _ in range(40 if broken else ctx.budget(4, 40)):
         g = Gen(rng)
         hist.append(g.history(rng.choice([60, 100])))
     seen = set()
     for k, h in enumerate(hist):
+        if broken and k >= systematic and failures:
+            break            # the systematic part already produced a failing input: no need for the random search
         try:
             n, f = check_history(ctx, h, "%d" % k)
         except Exception as e:
@@ -1481,7 +1484,7 @@ def oracle(ctx, broken, hints):
     failures.sort(key=lambda f: len(core.canon(f.input)))
     # shrink the history of the reported failures to what is needed
     failures = [shrink_failure(ctx, f) for f in failures[:3]] + failures[3:]
-    return {"evaluations": evals, "failures": failures, "histories": len(hist)}
+    return {"evaluations": evals, "failures": failures, "histories": len(hist), "systematic_histories": systematic}
 
 
 def shrink_failure(ctx, f):
